@@ -485,7 +485,7 @@ func main() {
 	var progs []built
 	nRun := 6
 	if f.Tier == "thorough" {
-		nRun = 120
+		nRun = 60
 	}
 	for i := 0; i < f.N; i++ {
 		g := genProgram(r.Fork(i), i)
